@@ -94,6 +94,7 @@ theorem step_evalPhase {w : World σ R} (h : EvalPhase w) {i : Nat} {t : Thread 
       · rw [hview]; simp [view, hrun, alone]
   | acqWrite l => simp [Act.evalSafe] at hsafe
   | relWrite l => simp [Act.evalSafe] at hsafe
+  | mutate g => simp [Act.evalSafe] at hsafe
   | compute f =>
     refine ⟨{ w with threads := w.threads.set i { t with todo := rest, st := f w.reg t.st } },
       { t with todo := rest, st := f w.reg t.st }, ?_, rfl, rfl, h.clean, hW, hrest, ?_, ?_, ?_⟩
@@ -316,6 +317,7 @@ theorem step_guards {w : World σ R} (h : EvalPhase w) {i : Nat} {t : Thread σ 
       · intro hne; exact absurd hrun hne
   | acqWrite l => simp [Act.evalSafe] at hsafe
   | relWrite l => simp [Act.evalSafe] at hsafe
+  | mutate g => simp [Act.evalSafe] at hsafe
   | compute f =>
     refine ⟨{ w with threads := w.threads.set i { t with todo := rest, st := f w.reg t.st } },
       { t with todo := rest, st := f w.reg t.st }, ?_, rfl, fun _ => rfl, ?_, ?_⟩
@@ -347,6 +349,7 @@ theorem finalHeld_append_rel (p : List (Act σ R)) (h : List Nat) (x : Nat) (hp 
     | acqWrite l => exact ih h (by simpa [finalHeld] using hp)
     | relWrite l => exact ih h (by simpa [finalHeld] using hp)
     | compute f => exact ih h (by simpa [finalHeld] using hp)
+    | mutate g => exact ih h (by simpa [finalHeld] using hp)
     | panic => simp [finalHeld]
 
 /-- Frame: a program that releases what it takes (and possibly guards it never took: a no-op), run
@@ -379,6 +382,7 @@ theorem finalHeld_wrapped (p : List (Act σ R)) (h : List Nat) (x : Nat) (hp : f
     | acqWrite l => exact ih h (by simpa [finalHeld] using hp)
     | relWrite l => exact ih h (by simpa [finalHeld] using hp)
     | compute f => exact ih h (by simpa [finalHeld] using hp)
+    | mutate g => exact ih h (by simpa [finalHeld] using hp)
     | panic => simp [finalHeld]
 
 theorem accounted_applyStep {w : World σ R} (h : EvalPhase w) (ha : Accounted w) (i : Nat) :
